@@ -73,13 +73,17 @@ def run_deeponet(case):
     tp = common.use_repo()
     import torch
     nB, bB, nT, bT = case["nB"], case["bB"], case["nT"], case["bT"]
-    unique = case["layout"] == "unique"
+    unique = case["layout"] in ("unique", "uniqsame")
+    same = case["layout"] == "uniqsame"   # per-function layout whose rows happen to agree for every function
     F = tp.spaces.R1("f"); X = tp.spaces.R2("x"); U = tp.spaces.R1("u")
     fi = torch.arange(nB, dtype=torch.float32)
     xi = torch.arange(nT, dtype=torch.float32)
     branch = fi.reshape(nB, 1, 1).repeat(1, 3, 1)
     out = (fi.reshape(nB, 1, 1) * BIG + xi.reshape(1, nT, 1)).clone()
-    if unique:
+    if same:
+        base = torch.stack([xi, xi + 0.5], dim=-1).unsqueeze(0)
+        trunk = base.expand(nB, nT, 2) if case.get("how") == "expand" else base.repeat(nB, 1, 1)
+    elif unique:
         trunk = torch.stack([fi.reshape(nB, 1).repeat(1, nT), xi.reshape(1, nT).repeat(nB, 1)], dim=-1)
     else:
         trunk = torch.stack([xi, xi + 0.5], dim=-1)
@@ -97,8 +101,23 @@ def run_deeponet(case):
     for k, (bb, tb, ob) in enumerate(loader):
         fs = [int(v) for v in bb.as_tensor[:, 0, 0].tolist()]
         o = ob.as_tensor
-        if unique:
-            t = tb.as_tensor
+        t = tb.as_tensor
+        if same and t.dim() == 2:
+            # identical rows for every function delivered once: the pairing statement is still decidable (locations t[:, 0])
+            xs = [int(v) for v in t[:, 0].tolist()]
+            if t[:, 1].tolist() != [x + 0.5 for x in xs]:
+                problems.append(f"batch {k}: trunk rows torn apart")
+        elif unique and (t.dim() != 3 or t.shape[0] != len(fs)):
+            problems.append(f"batch {k}: per-function trunk locations were given, the trunk batch has shape {tuple(t.shape)} "
+                            f"for {len(fs)} functions, so the locations of function i cannot be row block i")
+            xs = []
+        elif same:
+            xs = [int(v) for v in t[0, :, 0].tolist()] if t.shape[0] else []
+            for i in range(t.shape[0]):
+                if t[i, :, 0].tolist() != [float(x) for x in xs] or t[i, :, 1].tolist() != [x + 0.5 for x in xs]:
+                    problems.append(f"batch {k}: trunk rows of function {fs[i]} are not the rows of locations {xs}")
+                    break
+        elif unique:
             xs = [int(v) for v in t[0, :, 1].tolist()] if t.shape[0] else []
             for i in range(t.shape[0]):
                 if [int(v) for v in t[i, :, 0].tolist()] != [fs[i]] * t.shape[1] or [int(v) for v in t[i, :, 1].tolist()] != xs:
@@ -145,13 +164,87 @@ def run_fold(case):
             p = self._fix_points_order(p)
             return tp.spaces.Points(p.as_tensor[:, :1], U)
 
-    loader = tp.utils.PointsDataLoader((xin, yout), batch_size=case["bs"], shuffle=False, drop_last=bool(case["drop"]))
+    if case.get("loader", "points") == "torch":
+        # a plain torch DataLoader over one (input row, target row) pair per item, collated to Points
+        # (DataCondition documents "a PyTorch dataloader which supplies ... data-target pairs ... handed as points")
+        class Pairs(torch.utils.data.Dataset):
+            def __len__(self):
+                return n
+
+            def __getitem__(self, i):
+                return xin.as_tensor[i], yout.as_tensor[i]
+
+        def collate(items):
+            return (tp.spaces.Points(torch.stack([it[0] for it in items]), X),
+                    tp.spaces.Points(torch.stack([it[1] for it in items]), U))
+
+        loader = torch.utils.data.DataLoader(Pairs(), batch_size=case["bs"], shuffle=False, drop_last=bool(case["drop"]),
+                                             collate_fn=collate)
+    else:
+        loader = tp.utils.PointsDataLoader((xin, yout), batch_size=case["bs"], shuffle=False, drop_last=bool(case["drop"]))
     cond = tp.conditions.DataCondition(First(), loader, norm=case["norm"], root=1.0, use_full_dataset=True)
     val = float(cond.forward())
     # batches as the loader delivers them (already validated by the `pts` correspondence)
     bs = case["bs"]
     nb = (n // bs) if case["drop"] else math.ceil(n / bs)
     batches = [[abs(xs[i] - ys[i]) for i in range(k * bs, min((k + 1) * bs, n))] for k in range(nb)]
+    if case["norm"] == "inf":
+        ref = max([Fraction(0)] + [a for b in batches for a in b])
+        line = "foldinf " + lst(batches, lambda b: lst(b, q))
+    else:
+        p = case["norm"]
+        batches = [[a ** p for a in b] for b in batches]
+        ref = sum((sum(b) / len(b) for b in batches), Fraction(0)) / max(1, len(batches)) if batches else Fraction(0)
+        line = "foldmean " + lst(batches, lambda b: lst(b, q))
+    return dict(value=val, ref=ref, line=line)
+
+
+def run_fold_deeponet(case):
+    """DeepONetDataCondition(use_full_dataset=True) on a DeepONetDataLoader; the 'network' is a table pred[f][x], the
+    data are y[f][x]; the batches are read from one separate pass over the same loader (their index sets are what the
+    `shared` / `unique` correspondence validates), the aggregate is computed exactly from them"""
+    tp = common.use_repo()
+    import torch
+    nB, bB, nT, bT = case["nB"], case["bB"], case["nT"], case["bT"]
+    unique = case["layout"] == "unique"
+    F = tp.spaces.R1("f"); X = tp.spaces.R2("x"); U = tp.spaces.R1("u")
+    pred = [[Fraction(a, 8) for a in row] for row in case["pred"]]
+    ys = [[Fraction(a, 8) for a in row] for row in case["y"]]
+    fi = torch.arange(nB, dtype=torch.float64)
+    xi = torch.arange(nT, dtype=torch.float64)
+    branch = fi.reshape(nB, 1, 1).repeat(1, 3, 1)
+    out = torch.tensor([[[float(v)] for v in row] for row in ys], dtype=torch.float64)
+    if unique:
+        trunk = torch.stack([fi.reshape(nB, 1).repeat(1, nT), xi.reshape(1, nT).repeat(nB, 1)], dim=-1)
+    else:
+        trunk = torch.stack([xi, xi + 0.5], dim=-1)
+    loader = tp.utils.DeepONetDataLoader(branch, trunk, out, F, X, U, bB, bT,
+                                         shuffle_branch=bool(case["shB"]), shuffle_trunk=bool(case["shT"]))
+    P = torch.tensor([[float(v) for v in row] for row in pred], dtype=torch.float64)
+
+    class Branch(torch.nn.Module):
+        def forward(self, b):
+            self.fs = b.as_tensor[:, 0, 0].long()
+
+    class Table(tp.models.DeepONet):
+        def __init__(self):
+            torch.nn.Module.__init__(self)
+            self.input_space, self.output_space = X, U
+            self.branch = Branch()
+
+        def forward(self, t, *a, **k):
+            tt = t.as_tensor
+            xs = (tt[0, :, 1] if tt.dim() == 3 else tt[:, 0]).long()
+            return tp.spaces.Points(P[self.branch.fs][:, xs].unsqueeze(-1), U)
+
+    cond = tp.conditions.DeepONetDataCondition(Table(), loader, norm=case["norm"], root=1.0, use_full_dataset=True)
+    val = float(cond.forward())
+    batches = []
+    for bb, tb, ob in loader:
+        fs = [int(v) for v in bb.as_tensor[:, 0, 0].tolist()]
+        tt = tb.as_tensor
+        xs = [int(v) for v in (tt[0, :, 1] if tt.dim() == 3 else tt[:, 0]).tolist()]
+        batches.append([abs(pred[f][x] - ys[f][x]) for f in fs for x in xs])
     if case["norm"] == "inf":
         ref = max([Fraction(0)] + [a for b in batches for a in b])
         line = "foldinf " + lst(batches, lambda b: lst(b, q))
@@ -170,7 +263,8 @@ def model_line(case):
     if k == "pts":
         return f"pts {case['n']} {case['bs']} {case['drop']}"
     if k == "deeponet":
-        return f"{case['layout']} {case['nB']} {case['bB']} {case['nT']} {case['bT']}"
+        lay = "unique" if case["layout"] == "uniqsame" else case["layout"]
+        return f"{lay} {case['nB']} {case['bB']} {case['nT']} {case['bT']}"
     raise ValueError(k)
 
 
@@ -193,21 +287,32 @@ def gen_cases(ctx):
     M = ctx.scale(6, 9)
     sizes = list(itertools.product(range(1, M + 1), repeat=4))
     for (nB, bB, nT, bT) in sizes:
-        for layout in ("shared", "unique"):
+        for layout in ("shared", "unique", "uniqsame"):
+            if layout == "uniqsame" and ctx.quick and (nB + bB + nT + bT) % 3:
+                continue
             flags = [(0, 0), (rng.randint(0, 1), rng.randint(0, 1))] if ctx.quick else list(itertools.product((0, 1), repeat=2))
             for shB, shT in flags:
-                cases.append(dict(kind="deeponet", layout=layout, nB=nB, bB=bB, nT=nT, bT=bT, shB=shB, shT=shT))
+                cases.append(dict(kind="deeponet", layout=layout, nB=nB, bB=bB, nT=nT, bT=bT, shB=shB, shT=shT,
+                                  how=("expand", "repeat")[(nB + nT + shB) % 2]))
     # larger random sizes, oversized and "-1 = everything" batch sizes
     for _ in range(ctx.scale(300, 3000)):
         nB, nT = rng.randint(1, 24), rng.randint(1, 24)
         bB = rng.choice([-1, rng.randint(1, nB), rng.randint(1, nB + 5)])
         bT = rng.choice([-1, rng.randint(1, nT), rng.randint(1, nT + 5)])
-        cases.append(dict(kind="deeponet", layout=rng.choice(["shared", "unique"]), nB=nB, bB=bB, nT=nT, bT=bT,
-                          shB=rng.randint(0, 1), shT=rng.randint(0, 1)))
+        cases.append(dict(kind="deeponet", layout=rng.choice(["shared", "unique", "uniqsame"]), nB=nB, bB=bB, nT=nT, bT=bT,
+                          shB=rng.randint(0, 1), shT=rng.randint(0, 1), how=rng.choice(["expand", "repeat"])))
     for _ in range(ctx.scale(150, 1500)):
         n = rng.randint(1, 14)
         cases.append(dict(kind="fold", x=[rng.randint(-40, 40) for _ in range(n)], y=[rng.randint(-40, 40) for _ in range(n)],
-                          bs=rng.randint(1, n + 2), drop=rng.randint(0, 1), norm=rng.choice(["inf", 1, 2, 2, 3])))
+                          bs=rng.randint(1, n + 2), drop=rng.randint(0, 1), norm=rng.choice(["inf", 1, 2, 2, 3]),
+                          loader=rng.choice(["points", "points", "torch"])))
+    for _ in range(ctx.scale(100, 1000)):
+        nB, nT = rng.randint(1, 7), rng.randint(1, 7)
+        cases.append(dict(kind="fold", loader="deeponet", layout=rng.choice(["shared", "unique"]), nB=nB, nT=nT,
+                          bB=rng.choice([-1, rng.randint(1, nB + 1)]), bT=rng.choice([-1, rng.randint(1, nT + 1)]),
+                          shB=rng.randint(0, 1), shT=rng.randint(0, 1), norm=rng.choice(["inf", 1, 2, 2, 3]),
+                          pred=[[rng.randint(-24, 24) for _ in range(nT)] for _ in range(nB)],
+                          y=[[rng.randint(-24, 24) for _ in range(nT)] for _ in range(nB)]))
     return cases
 
 
@@ -216,7 +321,7 @@ def evaluate(case):
         return run_points(case)
     if case["kind"] == "deeponet":
         return run_deeponet(case)
-    return run_fold(case)
+    return run_fold_deeponet(case) if case.get("loader") == "deeponet" else run_fold(case)
 
 
 def judge(rep, case, res, model_reply):
@@ -245,11 +350,13 @@ def judge(rep, case, res, model_reply):
                 rep.fail(what, case, finding=finding)
     else:
         rep.count(f"fold:{case['norm']}")
+        rep.count(f"fold-loader:{case.get('loader', 'points')}")
         ref = res["ref"]
         if common.unq(model_reply) != ref:
             rep.disagree("full-data-set fold: drivers/C16.lean fold vs reference reduction", case, str(ref), model_reply)
         if abs(res["value"] - float(ref)) > 1e-5 * max(1.0, abs(float(ref))):  # the accumulator is float32
-            rep.fail(f"DataCondition(use_full_dataset) returned {res['value']!r}, the documented aggregate is {float(ref)!r}", case)
+            rep.fail(f"{'DeepONet' if case.get('loader') == 'deeponet' else ''}DataCondition(use_full_dataset) on a "
+                     f"{case.get('loader', 'points')} loader returned {res['value']!r}, the documented aggregate over the batches of one pass is {float(ref)!r}", case)
 
 
 def run(ctx, rep, cases=None):
@@ -267,8 +374,8 @@ def run(ctx, rep, cases=None):
         rep.disagreements.clear()
         raise
     for c, r, m in zip(cases, results, replies):
-        nontrivial = (c.get("n", 0) >= 2) or (c.get("nB", 0) >= 2 and c.get("nT", 0) >= 2) or (c["kind"] == "fold" and len(c["x"]) >= 2)
-        rep.case(c, nontrivial, sample=dict(case=c, implementation=r.get("text", r.get("value")), model=m), kind=c["kind"] + c.get("layout", ""))
+        nontrivial = (c.get("n", 0) >= 2) or (c.get("nB", 0) >= 2 and c.get("nT", 0) >= 2) or (c["kind"] == "fold" and (len(c.get("x", ())) >= 2 or c.get("nB", 0) * c.get("nT", 0) >= 2))
+        rep.case(c, nontrivial, sample=dict(case=c, implementation=r.get("text", r.get("value")), model=m), kind=c["kind"] + c.get("layout", "") + c.get("loader", ""))
         judge(rep, c, r, m)
     rep.hist["box"] = f"points n<={ctx.scale(7,12)}; deeponet sizes<={ctx.scale(6,9)}"
 
